@@ -17,6 +17,46 @@ history:   spec/DebFileCache.tla -- the query part as a history over TWO open pa
            returned dictionary) and Reopen (path rewritten and opened again); HistExact: every answer
            in every history = the stateless answer of DebFile.tla.  Negative controls:
            CacheKeyedByNameOnly, ResultsAliased, ContentCacheByFile (each violates HistExact).
+payload:   spec/DebPayload.tla -- what "the same control fields" / "the same md5sum map" mean for the TEXT of the
+           control and md5sums files, at character-class level (x non-space, b SPACE/TAB, v VT FF, s FS GS RS NEL
+           LS PS, u US NBSP U+1680 U+2003.., n LF, r CR): statement level = the packed value / name and its
+           domain (exact / unspec / outside), code level = Deb822(bytes) (bytes.splitlines, paragraph end, the
+           three regular expressions, validate_input with str.splitlines) and md5sums() in the bytes and the text
+           flavour (readlines, rstrip(CR LF), split(None, 1)).  Every sequence over the 7 classes up to length 4
+           (thorough 5) and over {x,b,s,n} ({x,b,s,u,n}) up to length 7; invariants CtlExact, D1IsReject, Md5Exact.
+           Negative controls (run in every thorough check): CtlSplitsLikeStr (bytes decoded first, then
+           str.splitlines: CtlExact violated by x v u x), Md5StripsLine (line.strip(): Md5Exact violated by x b),
+           Md5TextSplitsLikeStr (Md5Exact violated by x v).  The VAL / NAME lines say which shapes are "exact":
+           ALL concretisations (replay of CASE / PROBE / HTAB, recorded traces, two-package sessions) draw about
+           40 % of their file names and, in 60 % of the packages, one to three control values from those shapes
+           (c07_build.gen_shape_name / gen_shape_value), so look-alike line boundaries followed by a blank, white
+           space of every kind inside and at the END of names (and at the start of a leaf below a directory), an
+           absent name that differs from a packed one only by trailing white space ... occur in the ordinary
+           histories; a payload leg (c07_payload) also runs the shapes in the model's own frame -- exact ones as
+           verdicts, all others against the code-level prediction TLC printed (difference = drift, never alarm).
+domain of the payload (decided by ValDom / NameDom of DebPayload.tla, checked by TLC against the code level):
+  control value  in the domain: no CR, not ending in LF, first line empty or without leading / trailing white space,
+                 continuation lines start with a blank and end with a non-space character; VT FF FS GS RS NEL LS PS
+                 inside a line ARE payload when followed by b / u (DebFile hands bytes to Deb822: the only line
+                 terminator of the format is LF).  unspecified (DESIGN D1): such a character NOT followed by white
+                 space -- Deb822's own validate_input cuts with str.splitlines and raises ValueError (D1IsReject);
+                 run in the payload leg, never a verdict.  Leading / trailing white space of a value or a line:
+                 outside (the format does not carry it).  A look-alike boundary as the LAST character of a line is
+                 therefore outside, too.
+  file name      in the domain: non-empty, no LF / CR, does not start with '/' or './'; white space (blank, TAB, VT,
+                 FF, FS.., NBSP, U+3000 ...) inside and at the end is payload for the data part and for md5sums().
+                 A name STARTING with white space: data-part queries are verdicts, its md5sums entry is
+                 unspecified ("sum  name" cannot carry it: split(None, 1); the two flavours also disagree for
+                 NBSP / FS..) -- such names are only given to files the md5sums list does not mention.
+block-boundary alignment / file-object kinds (notes/SIZE_STRESS.md part 4; the expected answers do not change):
+  every stressed and ~6 % of the ordinary concretisations pad the control file (a new X-Pad field, or the first
+  line of a multi-line value) and the md5sums list (the first listed name) so that a line end -- between two
+  fields, inside a value, at the very end -- falls on 2^k - 1, 2^k or 2^k + 1 (k = 9..17); 12 % of the recorded
+  packages get a foreign ar member sized so that the data of a part starts exactly at 2^k of the package file
+  (ctx.extra["aligned_cases"]).  Kinds of file object handed to DebFile(fileobj=...): BytesIO, buffered real file,
+  unbuffered FileIO, BufferedReader over a raw stream with 1..7-byte reads, GzipFile / BZ2File / LZMAFile over the
+  compressed package on disk (fileno() names the compressed file), SpooledTemporaryFile in memory / rolled to disk
+  (ctx.extra["file_object_kinds"]).
 entry points (notes/API_SURFACE.md) -- every public way of opening a package and asking it; "all legs" =
 replay of CASE/PROBE/HTAB lines, recorded traces and two-package sessions; the variant used is drawn per
 case / per query, so they are mixed within one history (two live objects created in different ways, `in`
@@ -24,6 +64,8 @@ then has_file then get_file().read() on the same file ...):
   DebFile(fileobj=BytesIO)                       all legs ("fileobj")
   DebFile(None, 'r', BytesIO)  (positional)      all legs ("fileobj-pos")
   DebFile(fileobj=open(path, 'rb'))              all legs ("realfile": a real buffered file object)
+  DebFile(fileobj=<other kinds>)                 all legs (c07_obs.HOWS_KINDS: unbuffered, shortread, gzipfile, bz2file,
+                                                 lzmafile, spooled-mem, spooled-disk; ~1 in 6 of the shared-object cases)
   DebFile(filename=path)                         all legs ("filename")
   DebFile(path, 'r')  (positional)               all legs ("filename-pos")
   user subclass of DebFile(filename=, mode='r')  all legs ("subclass")
@@ -72,11 +114,12 @@ from concurrent.futures import ThreadPoolExecutor
 import core
 import c07_build as B
 import c07_hist as H
+import c07_payload as P
 
 MANIFEST = dict(
-    technique="TLA+ specs (DebFile: statement-level WellFormed/packed maps + transcription of DebFile.__init__/DebPart; DebFileCache: query histories over two open packages with explicit caches) model-checked by TLC over all member-name subsets, bounded member orders and all small contents; every configuration built as a real .deb and opened by DebFile; recorded random packages validated by TLC (TraceDebFile)",
-    text="TLC enumerates every subset of a 15-name member universe (debian-binary, control.tar and data.tar with none/gz/bz2/xz/lzma, four foreign names) and every injective member sequence up to length 3 (quick) / 4, and 5 over a 9-name sub-universe (thorough) and checks accept <=> has debian-binary and exactly one control and one data candidate, independence of member order, equality of the answers for 'n', './n', '/n' and that every query returns the packed blob, for every subset of the five maintainer scripts and every small data/md5sums map. Each CASE line is built as a real package and DebFile must answer Ok / DebError as TLC says (any other exception type is a violation); each PROBE line is concretised (names with spaces, non-ASCII, nested directories; binary, empty, NUL contents) and the complete table of has_file / in / get_content / get_file / [] answers, scripts(), md5sums(), debcontrol() is compared; random packages with random orders, foreign members and defects are recorded and validated by TLC. A history layer (DebFileCache) models two packages open at once with the caches an implementation might keep, caller-side mutation of returned dictionaries and rewrite + re-open of a path, and TLC checks that every answer in every history equals the stateless one; accordingly all queries are issued repeatedly, shuffled and interleaved between parts, spellings, access paths and two simultaneously open packages with equal file names, in replay and in recorded sessions.",
-    note="Payload fidelity through tarfile/compressors is sampled (seeded), structure is enumerated. Member lists whose verdict hinges on zst support (not in PART_EXTS of this tree) are unspecified: executed, either verdict accepted. Which exception reports an absent file in get_content (KeyError today) and the key type of md5sums() are diagnostic. Trusted: TLC, tarfile/gzip/bz2/lzma/hashlib, the ar writer, dpkg-deb and ar where present.",
+    technique="TLA+ specs (DebPayload: character-class model of the control / md5sums text, statement level vs. transcription of Deb822(bytes) and md5sums(); DebFile: statement-level WellFormed/packed maps + transcription of DebFile.__init__/DebPart; DebFileCache: query histories over two open packages with explicit caches) model-checked by TLC over all member-name subsets, bounded member orders and all small contents; every configuration built as a real .deb and opened by DebFile; recorded random packages validated by TLC (TraceDebFile)",
+    text="TLC enumerates every subset of a 15-name member universe (debian-binary, control.tar and data.tar with none/gz/bz2/xz/lzma, four foreign names) and every injective member sequence up to length 3 (quick) / 4, and 5 over a 9-name sub-universe (thorough) and checks accept <=> has debian-binary and exactly one control and one data candidate, independence of member order, equality of the answers for 'n', './n', '/n' and that every query returns the packed blob, for every subset of the five maintainer scripts and every small data/md5sums map. Each CASE line is built as a real package and DebFile must answer Ok / DebError as TLC says (any other exception type is a violation); each PROBE line is concretised (names with spaces, non-ASCII, nested directories; binary, empty, NUL contents) and the complete table of has_file / in / get_content / get_file / [] answers, scripts(), md5sums(), debcontrol() is compared; random packages with random orders, foreign members and defects are recorded and validated by TLC. A history layer (DebFileCache) models two packages open at once with the caches an implementation might keep, caller-side mutation of returned dictionaries and rewrite + re-open of a path, and TLC checks that every answer in every history equals the stateless one; accordingly all queries are issued repeatedly, shuffled and interleaved between parts, spellings, access paths and two simultaneously open packages with equal file names, in replay and in recorded sessions. A payload layer (DebPayload) models the text of the control and md5sums files at character-class level (blank, VT/FF, FS..RS/NEL/LS/PS, NBSP.., LF, CR, non-space): TLC checks that Deb822(bytes) and md5sums() in both flavours return the packed value / file name for every shape in the domain (look-alike line boundaries followed by a blank inside control values; white space of every kind inside and at the end of file names) and prints the shapes; all concretisations draw file names and control values from them, and the payload leg runs every class of shape in the model's own frame. Line ends of the control and md5sums files and ar member starts are aligned to powers of two in a share of the cases, and packages are opened through eleven kinds of file object.",
+    note="Payload fidelity through tarfile/compressors is sampled (seeded), structure is enumerated. Member lists whose verdict hinges on zst support (not in PART_EXTS of this tree) are unspecified: executed, either verdict accepted. Which exception reports an absent file in get_content (KeyError today) and the key type of md5sums() are diagnostic. Control values with VT FF FS GS RS NEL LS PS not followed by white space (DESIGN D1: debcontrol() raises ValueError) and md5sums entries of names that start with white space are unspecified: run, compared with the code-level model, never a verdict. Trusted: TLC, tarfile/gzip/bz2/lzma/hashlib, the ar writer, dpkg-deb and ar where present.",
     design="5 (C07)")
 
 SPELLINGS = ["plain", "dot", "slash"]
@@ -84,7 +127,8 @@ PARTS = ["control", "data"]
 
 
 from c07_obs import (classify, open_deb, drop, finish, pick_how, obs_has, obs_get, obs_md5, obs_scripts,  # noqa: E402
-                     obs_ctl, obs_listing, mutate_result, N_ACCESS, MD5_WAYS, HOWS_SHARED, HOWS_NAMED)
+                     obs_ctl, obs_listing, mutate_result, take_how_count, N_ACCESS, MD5_WAYS, HOWS_SHARED, HOWS_NAMED,
+                     HOWS_KINDS)
 
 
 # ------------------------------------------------------------------ spec -> code
@@ -308,8 +352,14 @@ def random_package(rng, stress=None):
     scripts = [s for s in B.MAINT_SCRIPTS if rng.random() < 0.45]
     nfiles = rng.choice([0, 1, 2, 3, 4, 6, 9] if not stress else [9, 10, 11, 31, 33] if stress == 1 else [99, 100, 101, 130])
     model = ["f%d" % (i + 1) for i in range(nfiles)]
-    names = B.gen_names(rng, set(model) | {"absent"} | set(B.CTRL_NAMES), long_names=bool(stress))
+    listed = [m for m in model if rng.random() < 0.7]
+    names = B.gen_names(rng, set(model) | {"absent"} | set(B.CTRL_NAMES), long_names=bool(stress), listed=set(listed))
     fields = B.gen_fields(rng)
+    aligned = []
+    do_align = bool(stress) or rng.random() < 0.08
+    if do_align:        # a line end of the control file on a power of two (notes/SIZE_STRESS.md part 4)
+        fields, info = B.align_fields(rng, fields, small=not stress)
+        aligned += [info] if info else []
     dblob = {}
     nbig = 0
     for m in model:
@@ -319,16 +369,19 @@ def random_package(rng, stress=None):
             nbig += 1
         if rng.random() < 0.15 and len(dblob) > 1:      # two files with the same content
             dblob[m] = dblob[rng.choice(model[:len(dblob) - 1])]
-    listed = [m for m in model if rng.random() < 0.7]
     import hashlib
     md5 = [(names[m], hashlib.md5(dblob[m]).hexdigest()) for m in listed]
     rng.shuffle(md5)
+    if do_align:        # ... and a line end of the md5sums list
+        md5, names, info = B.align_md5(rng, md5, names, small=not stress)
+        aligned += [info] if info else []
     cfiles = [("control", B.render_control(fields)), ("md5sums", B.render_md5(md5))] + [(s, B.gen_script(rng)) for s in scripts]
     rng.shuffle(cfiles)
     dfiles = [(names[m], dblob[m]) for m in model]
     rng.shuffle(dfiles)
     conc = B.Conc.concrete(names, fields, cfiles, dfiles, md5, "gnu" if rng.random() < 0.8 else "pax")
     conc.stress = stress
+    conc.aligned = aligned
     return conc, model
 
 
@@ -356,7 +409,9 @@ def record_trace(rng, work, given=None):
         conc, model = random_package(rng)
         mem = random_members(rng)
         style = "dpkg" if rng.random() < 0.8 or any(len(x) > 15 for x in mem) else "gnu"
-        how = pick_how(rng, 0.2)
+        how = pick_how(rng, 0.2, heavy=conc.stress >= 2)
+        if rng.random() < 0.12:     # a part whose data starts exactly at a power of two of the package file
+            mem = B.plan_ar_align(rng, mem, conc, style)
         calls = None
     else:
         conc, model, mem, style, how, calls = (B.Conc.from_json(given["conc"]), given["model"], given["mem"],
@@ -528,7 +583,10 @@ NEGATIVE = [("MC_DebFile_neg_first.cfg", "AcceptIffWellFormed"), ("MC_DebFile_ne
             ("MC_DebFile_neg_info.cfg", "AcceptIffWellFormed")]
 NEGATIVE_HIST = [("MC_DebFileCache_neg_name.cfg", "HistExact"), ("MC_DebFileCache_neg_alias.cfg", "HistExact"),
                  ("MC_DebFileCache_neg_content.cfg", "HistExact")]
+NEGATIVE_PAYLOAD = [("MC_DebPayload_neg_split.cfg", "CtlExact"), ("MC_DebPayload_neg_strip.cfg", "Md5Exact"),
+                    ("MC_DebPayload_neg_lines.cfg", "Md5Exact")]
 C1 = ["-XX:TieredStopAtLevel=1"]
+MODULE_OF = {"hist": "DebFileCache", "payload": "DebPayload"}
 
 
 def account(ctx, module, r, count=True):
@@ -597,6 +655,7 @@ def content_members(i, k, rnd, verdicts):
 def _work_content(args):
     """pool worker: tasks (i, k, probe record, seed, mem, expected verdict) -> (n, failures, drifts)"""
     tasks, work, quick = args
+    B.load_shapes(work)
     fails, drifts = [], []
     for i, k, pr, seed, mem, exp in tasks:
         rnd = random.Random(seed)
@@ -606,19 +665,20 @@ def _work_content(args):
         stress = 0 if k else 2 if i % (397 if quick else 197) == 13 else 1 if i % (31 if quick else 23) == 5 else 0
         conc = B.Conc(rnd, pr["pkg"], qn, canonical=(k == 0 and i % 7 == 0 and not stress), stress=stress)
         style = "dpkg" if any(len(x) > 15 for x in mem) or rnd.random() < 0.8 else "gnu"
-        how = pick_how(rnd, 0.4 if stress else 0.1)
+        how = pick_how(rnd, 0.4 if stress else 0.1, heavy=stress >= 2)
         # quick: the complete table for every second content, a sample of it (every name, usually one
         # spelling) for the others
         level = "stress" if stress else (("fullq" if i % 2 == 0 else "medium") if quick else "full")
         msg = run_pkg(mem, exp, pr["probe"], conc, style, how, level, seed, work, drifts.append)
         if msg:
             fails.append(((i, k), msg, pkg_case(mem, exp, pr["probe"], conc, style, how, level, seed)))
-    return len(tasks), fails, drifts[:20]
+    return len(tasks), fails, drifts[:20], worker_stats()
 
 
 def _work_members(args):
     """pool worker: member lists (j, CASE record) against shared concretisations"""
     cases, concs, seed, full_every, work = args
+    B.load_shapes(work)
     fails, drifts = [], []
     for j, c in cases:
         rnd = random.Random(seed * 1000003 + j)
@@ -635,13 +695,22 @@ def _work_members(args):
         msg = run_pkg(mem, exp, probe, conc, style, how, level, sd, work, drifts.append)
         if msg:
             fails.append((j, msg, pkg_case(mem, exp, probe, conc, style, how, level, sd)))
-    return len(cases), fails, drifts[:20]
+    return len(cases), fails, drifts[:20], worker_stats()
 
 
 def _work_traces(args):
     """pool worker: record one random package per seed"""
     seeds, work = args
-    return [record_trace(random.Random(sd), work) for sd in seeds]
+    B.load_shapes(work)
+    return [record_trace(random.Random(sd), work) for sd in seeds], worker_stats()
+
+
+def worker_stats():
+    """what the concretisations of this worker drew since the last call (evidence only)"""
+    st = B.take_stats()
+    for k, v in take_how_count().items():
+        st["how:" + k] = v
+    return st
 
 
 KNOWN_SURFACE = {
@@ -731,6 +800,7 @@ def decompressor_diag(ctx):
 def _work_hist(args):
     """pool worker: random two-package histories against the HTAB table TLC printed"""
     seeds, lines, nsteps, work = args
+    B.load_shapes(work)
     tab, pkgs, prts = H.load_table(lines)
     fails, drifts, nq = [], [], 0
     for sd in seeds:
@@ -740,12 +810,13 @@ def _work_hist(args):
         msg = H.run_hist(case, work, drifts.append)
         if msg:
             fails.append((sd, msg, H.hist_to_json(case)))
-    return len(seeds), fails, drifts[:20], nq
+    return len(seeds), fails, drifts[:20], nq, worker_stats()
 
 
 def _work_sessions(args):
     seeds, work = args
-    return [H.record_session(random.Random(sd), work) for sd in seeds]
+    B.load_shapes(work)
+    return [H.record_session(random.Random(sd), work) for sd in seeds], worker_stats()
 
 
 def chunks(lst, n):
@@ -763,7 +834,8 @@ def run(ctx):
     nproc = int(os.environ.get("VERIF_REPLAY_PROCS") or (6 if quick else 8))
     ctx.assumptions += [
         "member-name universe of the model: debian-binary, control.tar/data.tar x {none,gz,bz2,xz,lzma}, _gpgorigin, control.tar.zst, data.tar.gz.bak, control.tar.Z; all subsets, all orders up to length %d%s" % (3 if quick else 4, "" if quick else ", up to length 5 over a 9-name sub-universe"),
-        "packages are built the way dpkg-deb builds them (D5): tar members './name', distinct ar member names; file names have no leading/trailing blank, no newline, do not start with '/' or './'",
+        "packages are built the way dpkg-deb builds them (D5): tar members './name', distinct ar member names; file names have no LF / CR and do not start with '/' or './'; white space inside and at the end of a name is payload; a name starting with white space is never listed in md5sums (the line format cannot carry it: unspecified)",
+        "control values (DebPayload.tla: ValDom): no CR, first line without leading / trailing white space, continuation lines start with a blank and end with a non-space character; VT FF FS GS RS NEL LS PS inside a line are payload when followed by white space, unspecified (DESIGN D1, ValueError from Deb822.validate_input) otherwise",
         "member lists whose verdict depends on zst being a recognised extension are unspecified (this tree: not in PART_EXTS)",
         "payload (names, bytes, control values) is sampled with the run's seed; the exception type for get_content of an absent file and the key type of md5sums() are diagnostic",
         "trusted: TLC, tarfile/gzip/bz2/lzma/hashlib, the ar writer, dpkg-deb / ar (thorough)",
@@ -798,7 +870,8 @@ def _run(ctx, quick, rng, W, nproc, procs, pool, timeout, timing, lap):
         # short runs are dominated by JIT compilation: C1 only halves their CPU time
         return pool.submit(core.run_tlc, module, cfg, ctx.work, workers=workers, want_tags=set(),
                            timeout=timeout, keep_raw=True, java_opts=C1 if (quick or small) else None)
-    jobs = {"content": tlc("MC_DebFile_content_emit.cfg" if quick else "MC_DebFile_content.cfg"),
+    jobs = {"payload": tlc("MC_DebPayload_quick.cfg" if quick else "MC_DebPayload.cfg", 2 if quick else 4, quick, "DebPayload"),
+            "content": tlc("MC_DebFile_content_emit.cfg" if quick else "MC_DebFile_content.cfg"),
             "sets": tlc("MC_DebFile_sets_quick.cfg" if quick else "MC_DebFile_sets.cfg"),
             "orders": tlc("MC_DebFile_orders_quick.cfg" if quick else "MC_DebFile_orders.cfg")}
     if not quick:
@@ -809,18 +882,48 @@ def _run(ctx, quick, rng, W, nproc, procs, pool, timeout, timing, lap):
     # the spec-level negative controls (six more JVMs) run in the thorough tier only
     negs = [] if quick else [(cfg, inv, tlc(cfg, 2, True)) for cfg, inv in NEGATIVE]
     negs += [] if quick else [(cfg, inv, tlc(cfg, 2, True, "DebFileCache")) for cfg, inv in NEGATIVE_HIST]
+    negs += [] if quick else [(cfg, inv, tlc(cfg, 2, True, "DebPayload")) for cfg, inv in NEGATIVE_PAYLOAD]
     results = {}
+    stats = {}
+
+    def add_stats(st):
+        for k, v in st.items():
+            stats[k] = stats.get(k, 0) + v
 
     def result(name, tag=None):
         r = jobs[name].result()
         if r.violated:
-            raise core.MachineryError("specification DebFile (%s) violates %s\n%s" % (name, r.violated, r.tail))
+            raise core.MachineryError("specification %s (%s) violates %s\n%s" % (MODULE_OF.get(name, "DebFile"), name, r.violated, r.tail))
         results[name] = r
-        out = read_tagged(r, tag) if tag else None
+        out = (read_tagged(r, tag) if isinstance(tag, str) else tuple(read_tagged(r, t) for t in tag)) if tag else None
         shutil.rmtree(os.path.dirname(r.raw_path), ignore_errors=True)
         return out
 
-    # ---- code -> spec, recording (needs no TLC): random packages opened by the real code
+    # ---- the payload layer first: every concretisation below draws control values and file names from the
+    #      shapes TLC calls exact (spec/DebPayload.tla); the replay workers read them from the scratch directory
+    vals, pnames = result("payload", ("VAL", "NAME"))
+    lap("wait_tlc")
+    shapes = B.shape_tables(vals, pnames)
+    B.save_shapes(ctx.work, shapes)
+    ctx.extra["payload_shapes"] = {"values_exact": len(shapes["val_exact"]), "values_other": len(shapes["val_diag"]),
+                                   "names_exact": len(shapes["name_exact"]), "names_other": len(shapes["name_diag"]),
+                                   "values_with_lookalike_boundary": len([v for v in shapes["val_exact"] if "s" in v or "v" in v]),
+                                   "names_ending_in_white_space": len([n for n in shapes["name_exact"] if n[-1] in "bvsu"])}
+    ctx.sample("payload shapes (x non-space, b blank, v VT/FF, s FS..RS/NEL/LS/PS, u NBSP.., n LF): exact values e.g. %s; exact names e.g. %s; outside the statement e.g. value %s, name %s"
+               % ([v for v in shapes["val_exact"] if "s" in v][:3], [n for n in shapes["name_exact"] if n[-1] in "bu"][:3],
+                  [(l["v"], l["dom"]) for l in shapes["val_diag"] if "s" in l["v"]][:2], [(l["nm"], l["dom"]) for l in shapes["name_diag"] if l["dom"] == "unspec"][:2]))
+    pseed = rng.getrandbits(48)
+    prng = random.Random(pseed)
+    n_ex, n_dg = (110, 90) if quick else (1500, 1500)
+    pv_e = [{"v": v, "dom": "exact"} for v in prng.sample(shapes["val_exact"], min(n_ex, len(shapes["val_exact"])))]
+    pn_e = [{"nm": n, "dom": "exact"} for n in prng.sample(shapes["name_exact"], min(n_ex, len(shapes["name_exact"])))]
+    pv_d = prng.sample(shapes["val_diag"], min(n_dg, len(shapes["val_diag"])))
+    d1 = [l for l in shapes["val_diag"] if l["dom"] == "unspec"]           # the DESIGN D1 zone is always represented
+    pv_d = prng.sample(d1, min(12, len(d1))) + pv_d[:max(0, len(pv_d) - 12)]
+    pn_d = prng.sample(shapes["name_diag"], min(n_dg, len(shapes["name_diag"])))
+    payload_job = procs.apply_async(P.work_payload, ((pseed, pv_e, pn_e, pv_d, pn_d, ctx.work),))
+
+    # ---- code -> spec, recording: random packages opened by the real code
     ntr = 250 if quick else 2500
     tseeds = [rng.getrandbits(48) for _ in range(ntr)]
     trace_jobs = [procs.apply_async(_work_traces, ((ch, ctx.work),)) for ch in chunks(tseeds, nproc)]
@@ -906,8 +1009,15 @@ def _run(ctx, quick, rng, W, nproc, procs, pool, timeout, timing, lap):
         ctx.extra["matrix_cases"] = len(mp)
 
     # ---- code -> spec, validation (TLC) while the replay workers are busy
-    traces = [t for j in trace_jobs for t in j.get(timeout)]
-    sessions = [t for j in session_jobs for t in j.get(timeout) if t]
+    traces, sessions = [], []
+    for j in trace_jobs:
+        ts, st = j.get(timeout)
+        traces += ts
+        add_stats(st)
+    for j in session_jobs:
+        ts, st = j.get(timeout)
+        sessions += [t for t in ts if t]
+        add_stats(st)
     lap("record_traces")
     # the two trace validations (two TLC runs) go side by side
     sess_val = pool.submit(H.validate_sessions, CtxView(ctx, "sessions"), sessions, C1 if len(sessions) < 500 else None)
@@ -966,6 +1076,7 @@ def _run(ctx, quick, rng, W, nproc, procs, pool, timeout, timing, lap):
     for label, ar in pending:
         got = ar.get(timeout)
         n, fails, drifts = got[:3]
+        add_stats(got[-1])
         if label == "hist":
             hist_queries += got[3]
             n *= 2          # two packages per history
@@ -975,12 +1086,28 @@ def _run(ctx, quick, rng, W, nproc, procs, pool, timeout, timing, lap):
             ctx.drift(d)
         for key, msg, case in fails:
             found.setdefault(label, []).append((case, msg))
+    n, fails, drifts, count = payload_job.get(timeout)
+    n_pkg += n
+    per_label["payload"] = n
+    for d in drifts:
+        ctx.drift(d)
+    for key, msg, case in fails:
+        found.setdefault("payload", []).append((case, msg))
+    obs = count.pop("notes", {})
+    ctx.extra["unspecified_payload_observations"] = obs
+    for what, notes in sorted(obs.items()):
+        for note in notes[:2]:          # observations in the unspecified zone (diagnostic, never a verdict)
+            ctx.sample("unspecified payload: " + note, limit=10)
+    for k, c in sorted(count.items()):
+        for i in range(c if k.endswith(":exact") else 0):
+            ctx.case_seen(("payload", k, i), True)
+    ctx.extra["payload_cases"] = count
     ctx.extra["history_steps_replayed"] = hist_queries
     for label in ("content", "matrix", "hist"):
         for i in range(per_label.get(label, 0)):
             ctx.case_seen((label, i), True)
     ctx.extra["packages_per_configuration"] = per_label
-    for label in ("hist", "sets", "orders", "orders_mid", "content", "matrix", "session", "trace"):
+    for label in ("payload", "hist", "sets", "orders", "orders_mid", "content", "matrix", "session", "trace"):
         for case, msg in found.get(label, [])[:1 if label in ("sets", "orders", "orders_mid", "matrix") else 2]:
             ctx.violation(case, msg)
     if found:
@@ -995,12 +1122,12 @@ def _run(ctx, quick, rng, W, nproc, procs, pool, timeout, timing, lap):
         r = f.result()
         shutil.rmtree(os.path.dirname(r.raw_path), ignore_errors=True)
         ncontrols[cfg] = r.violated
-        account(ctx, "DebFileCache" if "Cache" in cfg else "DebFile", r, count=False)
+        account(ctx, "DebFileCache" if "Cache" in cfg else "DebPayload" if "Payload" in cfg else "DebFile", r, count=False)
         if r.violated != inv:
             raise core.MachineryError("negative control %s: expected %s to be violated, TLC says %r" % (cfg, inv, r.violated))
     lap("wait_tlc")
     for name, r in results.items():
-        account(ctx, "DebFileCache" if name == "hist" else "DebFile", r)
+        account(ctx, MODULE_OF.get(name, "DebFile"), r)
     ctx.extra["spec_negative_controls"] = ncontrols
     decompressor_diag(ctx)
     surface_audit(ctx)
@@ -1016,9 +1143,18 @@ def _run(ctx, quick, rng, W, nproc, procs, pool, timeout, timing, lap):
         "orders_mid": None if quick else "injective sequences of length <= 5 over 9 names",
         "content": "32 script subsets x partial maps {f1,f2%s} -> {11,12} x md5 subsets" % ("" if quick else ",f3"),
         "matrix": None if quick else "25 compression pairs x 32 script subsets x {f1} -> {11,12} x md5 subsets",
+        "payload": "DebPayload: every sequence over {x,b,v,s,u,n,r} up to length %d and over %s up to length 7" % (
+            (4, "{x,b,s,n}") if quick else (5, "{x,b,s,u,n}")),
         "spellings": SPELLINGS, "trace packages": "<= 9 files, 18 foreign member names, random order"}
     ctx.extra["tlc"] = {n: {"distinct": r.distinct, "generated": r.generated, "wall_s": round(r.wall, 1)} for n, r in results.items()}
     ctx.extra["packages_built_and_opened"] = n_pkg
+    add_stats(worker_stats())           # what the parent process itself concretised (shared concs, dpkg-deb leg)
+    ctx.extra["file_object_kinds"] = {k[4:]: v for k, v in sorted(stats.items()) if k.startswith("how:")}
+    ctx.extra["aligned_cases"] = {k[8:]: v for k, v in sorted(stats.items()) if k.startswith("aligned:")}
+    ctx.extra["payload_drawn"] = {k: v for k, v in sorted(stats.items()) if k.startswith(("value:", "name:"))}
+    missing = [k for k in HOWS_SHARED + HOWS_NAMED + HOWS_KINDS if not stats.get("how:" + k)]
+    if missing:
+        ctx.drift("file-object kinds not drawn in this run: %s" % ", ".join(missing))
     ctx.traces += n_pkg + len(traces) + len(sessions)
 
 
@@ -1033,7 +1169,7 @@ def dpkg_leg(ctx, probes, set_cases):
     rng.shuffle(cand)
     for i, pr in enumerate(cand[:40]):
         qn = sorted(pr["probe"]["has"]["data"]["plain"])
-        conc = B.Conc(rng, pr["pkg"], qn, canonical=(i == 0))
+        conc = B.Conc(rng, pr["pkg"], qn, canonical=(i == 0), align=False)
         z, uni = variants[i % len(variants)]
         wd = os.path.join(ctx.work, "dpkg")
         os.makedirs(wd, exist_ok=True)
@@ -1094,6 +1230,8 @@ def replay(ctx, case):
         if st != case["exp"]["st"]:
             return "dpkg-deb package: %s, specification says %s" % (st, case["exp"]["st"])
         return check_content(deb, case["probe"], conc, random.Random(0), "full") if st == "ok" else None
+    if case["kind"] == "payload":
+        return P.run_case(case, ctx.work)[0]
     if case["kind"] == "hist":
         return H.run_hist(case, ctx.work)
     if case["kind"] == "session":
